@@ -733,6 +733,22 @@ pub fn render_staged_noshow(
     })
 }
 
+/// One parsed DOM converted to a render tree twice (an application that keeps the DOM
+/// and re-renders, e.g. on resize): both conversions are rendered.
+pub fn render_dom_twice(cfg: &Cfg, input: &[u8], width: usize) -> Outcome<(Outcome<String>, Outcome<String>)> {
+    let fuel = fuel_for(input.len());
+    guarded(fuel, || {
+        with_config!(cfg, |c| {
+            let dom = c.parse_html(input)?;
+            let t1 = c.dom_to_render_tree(&dom)?;
+            let r1 = guarded(fuel, || c.render_to_string(t1, width));
+            let t2 = c.dom_to_render_tree(&dom)?;
+            let r2 = guarded(fuel, || c.render_to_string(t2, width));
+            Ok((r1, r2))
+        })
+    })
+}
+
 /// Cross-configuration staged route: the tree is built by `build`
 /// (parse_html + dom_to_render_tree) and rendered by `render`
 /// (render_to_string on clones), as an application that parses once and
